@@ -54,6 +54,10 @@ def ref_adjacency(case):
         return grid_neighbours(case['shape'], a[1])
     if a[0] == 'diag':
         return diag_table(case['shape'])
+    if a[0] == 'cut':
+        cut = set(int(p) for p in a[1])
+        base = grid_neighbours(case['shape'], [False] * len(case['shape']))
+        return [[] if p in cut else [q for q in nb if q not in cut] for p, nb in enumerate(base)]
     raise ValueError(a)
 
 
